@@ -58,6 +58,7 @@ def run(ctx):
     ctx.rule('C16.R4', 'the marker is a non-empty string bound to the beartype version and is appended to (not '
              'substituted for) the optimisation tag the interpreter passes')
     _marker_protocol(ctx, variant)
+    source_to_code_protocol(ctx, 'C16.R3')
 
 
 def _marker_protocol(ctx, variant):
@@ -272,3 +273,115 @@ def loader_protocol(ctx, RULE_PATCH, RULE_PUB):
         F.stubs.clear()
         F.stubs.update(saved_stubs)
     return variant[0] if variant else None
+
+
+def source_to_code_protocol(ctx, RULE):
+    """source_to_code, interpreted: an un-hooked module is compiled by the standard loader; a hooked module is parsed,
+    transformed by a transformer built from the published module name and configuration, and compiled."""
+    from sa.fold import AObj, FuncVal, Sym, _Abort, _Raise, _PyCallable, _call_function
+    from . import _gen
+    repo = ctx.repo
+    F = _gen.engines(ctx)[0].f
+    lm = repo.mod(LOADER)
+    cls = F.const(LOADER, 'BeartypeSourceFileLoader')
+    fn = cls.find('source_to_code')
+    ctx.require(isinstance(fn, FuncVal), 'anchor vanished: BeartypeSourceFileLoader.source_to_code')
+    saved, saved_ext, saved_b = dict(F.stubs), dict(F.ext_stubs), F.builtin_hook
+    log = []
+    failing = {}
+
+    class _Transformer(AObj):
+        def __init__(self, **kw):
+            self.kw = kw
+            log.append(('transformer', kw))
+
+        def visit(self, tree):
+            if failing.get('transformer'):
+                raise _Raise(failing['transformer'], 'the transformer')
+            return ('TRANSFORMED', tree, self.kw.get('module_name'), self.kw.get('conf'))
+
+    from sa.fold import BoundMethod
+
+    class _Self(AObj):
+        _track_attribute_stores = True
+
+        def __init__(self, conf):
+            self._module_conf, self._module_name = conf, 'pkg.mod'
+
+        def __getattr__(self, name):          # the other methods of the real loader class
+            f_ = cls.find(name)
+            if isinstance(f_, FuncVal):
+                return BoundMethod(self, f_)
+            raise AttributeError(name)
+
+    class _Super(AObj):
+        @staticmethod
+        def source_to_code(*a, **k):
+            log.append(('standard', a, k))
+            return 'STANDARD-CODE'
+
+    def bh(name, args, kw):
+        if name == 'super':
+            return _Super()
+        if name == 'compile':
+            only_ast = any('PyCF_ONLY_AST' in repr(x) or x == 1024 for x in list(args[3:]) + list(kw.values()))
+            return ('AST', args[0]) if only_ast else ('CODE', args[0])
+        return saved_b(name, args, kw) if saved_b else NotImplemented
+    F.builtin_hook = bh
+    tq = [n for n, v in F.module_env(LOADER).items() if getattr(v, 'name', '') == 'BeartypeNodeTransformer']
+    olds = [(n, F.patch_global(LOADER, n, _PyCallable(lambda **kw: _Transformer(**kw)))) for n in tq]
+    ctx.require(olds, 'anchor vanished: the loader module no longer refers to BeartypeNodeTransformer')
+    F.ext_stubs['importlib.util.decode_source'] = lambda e, a, k: 'SOURCE-TEXT'
+    F.ext_stubs['importlib._bootstrap_external.decode_source'] = lambda e, a, k: 'SOURCE-TEXT'
+    ver = [n for n in F.module_env(LOADER) if n.startswith('IS_PYTHON_AT_LEAST')]
+    try:
+        for at_least in (False, True):
+            olds_v = [(n, F.patch_global(LOADER, n, at_least)) for n in ver]
+            try:
+                for conf in (None, 'CONF'):
+                    del log[:]
+                    try:
+                        out = _call_function(F, fn, [_Self(conf)], {'data': b'bytes', 'path': '/p/mod.py'}, 1)
+                    except (_Abort, _Raise) as ex:
+                        ctx.require(False, f'cannot interpret source_to_code: {ex}')
+                    tag = f'conf={"published" if conf else "none"}:newer-python={at_least}'
+                    if conf is None:
+                        ctx.ob(RULE, f'source_to_code:unhooked-delegates:{tag}', lm.where(fn.node),
+                               'without a published configuration the standard loader compiles the module and no transformer is built',
+                               out == 'STANDARD-CODE' and [x[0] for x in log] == ['standard'], f'evaluates to {out!r}; {log}')
+                    else:
+                        built = [x[1] for x in log if x[0] == 'transformer']
+                        ok = len(built) == 1 and built[0].get('module_name') == 'pkg.mod' and built[0].get('conf') == 'CONF' and \
+                            out == ('CODE', ('TRANSFORMED', ('AST', 'SOURCE-TEXT'), 'pkg.mod', 'CONF'))
+                        ctx.ob(RULE, f'source_to_code:transformer-gets-published-conf:{tag}', lm.where(fn.node),
+                               'the module is parsed, transformed by a transformer built from the published module name and '
+                               'configuration, and the transformed tree is what is compiled', ok, f'evaluates to {out!r}; {log}')
+            finally:
+                for n, o in olds_v:
+                    F.patch_global(LOADER, n, o)
+        # a transformer that fails must fail the import: compiling the module untransformed instead would run it
+        # unchecked — and, inside the patched get_code, cache that under the beartype marker
+        F.faithful_try = True
+        for exc in ('RecursionError', 'ValueError'):
+            failing['transformer'] = exc
+            del log[:]
+            raised = out = None
+            try:
+                out = _call_function(F, fn, [_Self('CONF')], {'data': b'bytes', 'path': '/p/mod.py'}, 1)
+            except _Raise as ex:
+                raised = ex
+            except _Abort as ex:
+                ctx.require(False, f'cannot interpret source_to_code: {ex}')
+            ctx.ob(RULE, f'source_to_code:transformer-failure-is-not-swallowed:{exc}', lm.where(fn.node),
+                   'when the transformer raises, no code object is produced for the hooked module', raised is not None,
+                   f'evaluates to {out!r}: the module is compiled without the transformation')
+        failing.clear()
+    finally:
+        F.faithful_try = False
+        F.builtin_hook = saved_b
+        for n, o in olds:
+            F.patch_global(LOADER, n, o)
+        F.stubs.clear()
+        F.stubs.update(saved)
+        F.ext_stubs.clear()
+        F.ext_stubs.update(saved_ext)
